@@ -1,0 +1,1 @@
+//! Verification hooks (cluster); see `verif/mod.rs`.
